@@ -591,7 +591,7 @@ def run(tier, seed):
         "rule": ("one evaluation = one (specification, n, parameters) generation or one (rule form, object) map round "
                  "trip; distinct = counted once per distinct specification (sha1 of its JSON) / per chain class; "
                  "non-trivial = generation with at least one object, every map case"),
-        "exhaustive": tier == "quick",
+        "exhaustive": False,
         "contracts_evaluated": dict(counts),
         "forms": dict(forms),
         "samples": samples[::step][:6],
